@@ -734,6 +734,15 @@ fn handle(line: &str) -> String {
             }
         }
         ["reser", src] => src_of(src).map(op_reser).unwrap_or("badreq".into()),
+        ["num", h] => match unhex_str(h) {
+            // `u64::from_str` (Number) and `usize::from_str` (score, id) on the same text
+            Some(t) => match (t.parse::<u64>(), t.parse::<usize>()) {
+                (Ok(a), Ok(b)) if a as u128 == b as u128 => format!("ok {}", a),
+                (Err(_), Err(_)) => "err".into(),
+                _ => "differ".into(),
+            },
+            None => "badreq".into(),
+        },
         ["build", src] => src_of(src).map(|s| build_str(&build(s))).unwrap_or("badreq".into()),
         ["liftover", src, ivs] => src_of(src).map(|s| op_liftover(s, ivs)).unwrap_or("badreq".into()),
         ["ops", src, ops] => src_of(src).map(|s| op_ops(s, ops)).unwrap_or("badreq".into()),
